@@ -598,7 +598,7 @@ class C17(Check):
         "optional members, sparse/empty rows) on which every algebra/indexing law is evaluated for all single indices, "
         "contiguous/negative/stepped slices and a scalar set; non-trivial = at least 100 law instances evaluated; "
         "distinct = (bins, patches, auto, seed). icontract invariants run on every public call."
-        ' Further laws: augmented assignment, operands unchanged, stepped/list/numpy-integer selections, selections independent of the parent, non-finite equality, constant containers of other shapes, negative scalars, reversed selections rejected.'
+        ' Further laws: augmented assignment, operands unchanged, stepped/list/numpy-integer selections, selections independent of the parent, non-finite equality, constant containers of other shapes, negative scalars, Fraction scalars, CorrFunc operands with different member sets rejected in either order, reversed selections rejected.'
     )
     assumptions = [
         "CorrFunc + CorrFunc with different optional members is not judged (the statement does not define it)",
